@@ -15,7 +15,7 @@ LEVEL = "exploration"
 RULE = (
     "the C01 variant families (rebuild under id bijection + shuffled insertion order, relabel copy/in place, every "
     "descriptor re-expressed by a proper symmetry or by an improper one with the opposite parity, composition) for "
-    "all four classes with fully specified parities: real hash(g) == hash(g'), set/dict membership; plus a recipe "
+    "all four classes with fully specified parities (8 % large inputs of 20-110 atoms as in C01): real hash(g) == hash(g'), set/dict membership; plus a recipe "
     "corpus rebuilt in fresh interpreters under different PYTHONHASHSEED values whose hashes must equal the "
     "in-process ones for every non-empty graph. Non-trivial as C01; distinct by canonical invariants x variant, "
     "resp. (hash seed, graph)."
@@ -31,7 +31,7 @@ ANCHORS = [
     "stereomolgraph.algorithms.color_refine:_reaction_generator",
 ]
 REQUIRED_ANCHORS = ANCHORS
-REQUIRED = ["hash_pairs", "process_graphs", "with_changes", "with_placeholder", "mirror_rewrites"]
+REQUIRED = ["hash_pairs", "process_graphs", "with_changes", "with_placeholder", "mirror_rewrites", "large_graphs"]
 CASE_TIMEOUT = 1600
 
 
@@ -55,7 +55,12 @@ def gen_cases(ctx):
     for i in range(n):
         cls = CLASS_NAMES[i % 4]
         j = i // 4
-        pg = gen.random_pg(rng, cls, n_range=big if rng.random() < 0.3 else (2, 9), alphabet=rng.choice([gen.TINY, gen.SMALL, gen.WIDE]), p_none=0.0, allow_empty=False)
+        if j % 12 == 5:
+            from .c02 import _specified
+
+            pg = _specified(gen.large_pg(rng, cls))  # C03 is stated for fully specified parities
+        else:
+            pg = gen.random_pg(rng, cls, n_range=big if rng.random() < 0.3 else (2, 9), alphabet=rng.choice([gen.TINY, gen.SMALL, gen.WIDE]), p_none=0.0, allow_empty=False)
         m = gen.random_bijection(rng, pg)
         yield {"kind": "variant", "cls": cls, "pg": pg_to_json(pg), "variant": c01.VARIANTS[j % len(c01.VARIANTS)], "bseed": rng.randrange(1 << 30), "idmap": [[a, b] for a, b in m.items()]}
     # process part: hash seeds are spread over the shards
@@ -90,6 +95,8 @@ def check_case(ctx, case):
     g, g2 = c01._variant(pg, variant, brng, m)
     ctx.case((sem.canon_key(pg), variant), len(pg["atoms"]) >= 2 and len(pg["bonds"]) >= 1)
     descs = list(pg["astereo"].values()) + list(pg["bstereo"].values()) + [d for v in list(pg["achange"].values()) + list(pg["bchange"].values()) for d in v.values()]
+    if len(pg["atoms"]) >= 20:
+        ctx.count("large_graphs")
     if pg["achange"] or pg["bchange"]:
         ctx.count("with_changes")
     if any(None in d[1] for d in descs):
